@@ -56,7 +56,7 @@ fn settings_menu(dst: u8, rich: bool) -> Vec<Setting> {
         v.extend([Setting::bits(settings::FL), Setting::bits(settings::FL | settings::TD), Setting::bits(settings::FL | settings::RX), Setting::bits(settings::AP | settings::HD | settings::FL)]);
     }
     if dst == 3 {
-        v.extend([Setting::bits(settings::KEY7), Setting::mods(ModSpec::Invert)]);
+        v.extend([Setting::bits(settings::KEY7), Setting::mods(ModSpec::Invert), Setting::mods(ModSpec::HoIn(Some(5.0)))]);
     }
     if rich {
         v.extend([Setting::bits(settings::EZ | settings::HT), Setting { rate: Some(1.2), ..Setting::nm() }, Setting { rate: Some(2.0), ..Setting::bits(settings::FL) }]);
@@ -120,7 +120,7 @@ fn main() {
                         }
                         // independent section count
                         let rate1 = s.rate.is_none() && matches!(&s.mods, ModSpec::Bits(b) if b & (settings::DT | settings::HT | settings::NC) == 0);
-                        if rate1 && matches!(dst, 0 | 1 | 3) && !matches!(s.mods, ModSpec::Invert) {
+                        if rate1 && matches!(dst, 0 | 1 | 3) && !matches!(s.mods, ModSpec::Invert | ModSpec::HoIn(_)) {
                             // objects considered: osu / mania count objects, taiko counts hits
                             let times: Vec<f64> = if dst == 1 {
                                 let mut hits = 0;
